@@ -4,6 +4,8 @@ import (
 	"fmt"
 
 	hg "github.com/mosaicnetworks/babble/src/hashgraph"
+	"github.com/mosaicnetworks/babble/src/peers"
+	"github.com/mosaicnetworks/babble/src/proxy"
 )
 
 // C13 (partial, bounded system level) — fast-sync continuity.  Four real cores;
@@ -128,5 +130,117 @@ func VerifHarness_C13_O1() {
 	}
 	verifObserve("anchor", anchor)
 	verifObserve("blocksAfterReset", len(got))
+	verifReach("end")
+}
+
+// C13/O2 — continuity across a membership change: validators 0,1,2 gossip, a
+// join request of peer 3 goes through consensus; the JOINER (a fresh node that
+// only knows the genesis set) then resets itself from the anchor served by a
+// chosen validator — at a chosen moment, inside or after the six-round
+// activation window — processes the anchor block's receipts as the node-level
+// flow does, and takes part in the gossip.  Its later blocks and its
+// validator-set history from the anchor on must equal the full-history nodes'.
+// The iteration order of the frame's peer-set history during the reset (a Go
+// map) is a shape case.
+func VerifHarness_C13_O2() {
+	s := verifNewSys(3)
+	// the joiner: a core of its own, not in the genesis set
+	jp := verifPeer(3)
+	s.peers = append(s.peers, jp)
+	jn := &verifSysNode{}
+	jcb := func(b hg.Block) (proxy.CommitResponse, error) {
+		jn.blocks = append(jn.blocks, b)
+		receipts := []hg.InternalTransactionReceipt{}
+		for _, it := range b.InternalTransactions() {
+			receipts = append(receipts, it.AsAccepted())
+		}
+		return proxy.CommitResponse{StateHash: []byte{byte(len(jn.blocks))}, InternalTransactionReceipts: receipts}, nil
+	}
+	gen := peers.NewPeerSet(s.peers[:3])
+	jn.c = newCore(NewValidator(verifKey(3), "joiner"), gen, gen, hg.NewInmemStore(1000), jcb, false, verifLogger())
+	jn.c.setHeadAndSeq()
+	jn.firstIndex = -1
+	itx := hg.NewInternalTransactionJoin(*jp)
+	ih, _ := itx.Body.Hash()
+	itx.Signature = verifSignature(verifKey(3), ih, true)
+	phaseA := []int{48, 66, 84}[verifChoice("resetMoment", 3)]
+	for st := 0; st < phaseA; st++ {
+		to := st % 3
+		from := (to + 1 + (st/3)%2) % 3
+		if st == 4 {
+			s.nodes[0].c.addInternalTransaction(itx)
+		}
+		if err := s.pull(from, to, -1); err != nil {
+			panic(fmt.Sprintf("phase A step %d: %v", st, err))
+		}
+	}
+	rrJoin := -1
+	for _, b := range s.nodes[0].blocks {
+		if len(b.InternalTransactions()) > 0 {
+			rrJoin = b.RoundReceived()
+		}
+	}
+	server := verifChoice("servingPeer", 3)
+	block, frame, err := s.nodes[server].c.getAnchorBlockWithFrame()
+	if err != nil || rrJoin < 0 || block.RoundReceived() < rrJoin {
+		verifAssume(false) // the anchor does not yet cover the join for this shape
+	}
+	anchor := block.Index()
+	b2, f2 := verifTransportCopyBlock(block), verifTransportCopyFrame(frame)
+	verifMapOrder("peerSetHistoryOrder", 2)
+	err = jn.c.fastForward(b2, f2)
+	verifAssert("honest-anchor-accepted-by-the-joiner", err == nil)
+	if err != nil {
+		return
+	}
+	// as Node.fastForward does after the reset
+	jn.c.processAcceptedInternalTransactions(b2.RoundReceived(), b2.InternalTransactionReceipts())
+	jn.c.acceptedRound = rrJoin + 6
+	s.nodes = append(s.nodes, jn)
+	s.txSeq = append(s.txSeq, 0)
+	for st := 0; st < 72; st++ {
+		to := (3 + st) % 4
+		from := (to + 1 + (st/4)%3) % 4
+		if err := s.pull(from, to, -1); err != nil && to != 3 && from != 3 {
+			panic(fmt.Sprintf("phase B step %d (%d<-%d): %v", st, to, from, err))
+		}
+	}
+	full := &verifSys{nodes: s.nodes[:3], peers: s.peers, txSeq: s.txSeq}
+	full.checkInvariants(0)
+	ref := s.nodes[0].blocks
+	for _, b := range jn.blocks {
+		verifAssert("joiner-delivers-only-blocks-after-the-anchor", b.Index() > anchor)
+		if b.Index() < len(ref) {
+			x := ref[b.Index()]
+			verifAssert("joiner-delivers-the-same-blocks-as-full-history-nodes", x.RoundReceived() == b.RoundReceived() && string(x.FrameHash()) == string(b.FrameHash()) && string(x.PeersHash()) == string(b.PeersHash()) && len(x.Transactions()) == len(b.Transactions()))
+		}
+	}
+	// validator-set history from the anchor's round on
+	mine, _ := jn.c.hg.Store.GetAllPeerSets()
+	theirs, _ := s.nodes[0].c.hg.Store.GetAllPeerSets()
+	for r, ps := range theirs {
+		if r >= b2.RoundReceived() || r == rrJoin+6 {
+			got, ok := mine[r]
+			same := ok && len(got) == len(ps)
+			if same {
+				for i := range ps {
+					if got[i].PubKeyHex != ps[i].PubKeyHex {
+						same = false
+					}
+				}
+			}
+			verifAssert("joiner-has-the-same-validator-set-history-from-the-anchor-on", same)
+		}
+	}
+	last := s.nodes[0].c.hg.Store.LastRound()
+	a, _ := jn.c.hg.Store.GetPeerSet(last)
+	b, _ := s.nodes[0].c.hg.Store.GetPeerSet(last)
+	verifAssert("joiner-uses-the-same-validator-set-for-the-latest-round", a != nil && b != nil && len(a.Peers) == len(b.Peers) && len(a.Peers) == 4)
+	if len(jn.blocks) >= 1 {
+		verifReach("joiner-delivered-blocks-after-the-reset")
+	}
+	if jn.c.seq >= 0 {
+		verifReach("joiner-created-events-of-its-own")
+	}
 	verifReach("end")
 }
